@@ -128,6 +128,31 @@ func (c *Ctx) runEnc(fn *ssa.Function, o encOpts, r *Report) ([]encRun, []string
 // encEvent renders buffer writes, escaper calls, formatter calls and encoder-to-encoder calls.
 func (c *Ctx) encEvent(s *TSCtx, ci ssa.CallInstruction) string {
 	if kind, _, arg, ok := bufWrite(ci); ok {
+		// one write of a concatenation is the same byte sequence as one write per operand
+		if kind == "WS" {
+			if p := c.prov(arg, s.Frame).eff(); p.Kind == "concat" {
+				var parts []string
+				var flat func(n *PNode)
+				flat = func(n *PNode) {
+					if n.Kind != "call" { // a call operand stays a call (not its inlined body)
+						n = n.eff()
+					}
+					if n.Kind == "concat" {
+						for _, a := range n.Args {
+							flat(a)
+						}
+						return
+					}
+					if str, ok := n.constString(); ok {
+						parts = append(parts, fmt.Sprintf("WS:%q", str))
+						return
+					}
+					parts = append(parts, "WS:"+provShort(n))
+				}
+				flat(p)
+				return strings.Join(parts, "\x1f")
+			}
+		}
 		if k, isK := s.Eval(arg); isK {
 			switch {
 			case k.Kind() == constant.Int:
@@ -656,11 +681,22 @@ func (c *Ctx) checkNumbers(r *Report, ro *Roles) {
 func (c *Ctx) checkSanitised(r *Report, ro *Roles, mainEsc *ssa.Function) {
 	nW := 0
 	for _, e := range ro.Encoders {
+		// the interface methods plus every unexported method of the encoder type (helpers extracted from them)
+		var ms []*ssa.Function
+		seenM := map[*ssa.Function]bool{}
 		for _, mname := range encoderMethods {
-			m := c.declaredMethod(e, mname)
-			if m == nil {
-				continue
+			if m := c.declaredMethod(e, mname); m != nil && !seenM[m] {
+				seenM[m] = true
+				ms = append(ms, m)
 			}
+		}
+		for _, f := range c.Funcs {
+			if recvNamed(f) == e && f.Parent() == nil && f.Object() != nil && !f.Object().Exported() && !seenM[f] && f.Synthetic == "" {
+				seenM[f] = true
+				ms = append(ms, f)
+			}
+		}
+		for _, m := range ms {
 			var bad []string
 			cnt := 0
 			eachInstr(m, func(in ssa.Instruction) {
@@ -753,7 +789,7 @@ func (c *Ctx) checkSanitised(r *Report, ro *Roles, mainEsc *ssa.Function) {
 			}
 		}
 	}
-	r.Floor("buffer writes in the encoders", nW, 23)
+	r.Floor("buffer writes in the encoders", nW, 16)
 }
 
 // ---------------------------------------------------------------------------
@@ -1262,6 +1298,18 @@ func (c *Ctx) checkAnySwitch(r *Report) {
 func (c *Ctx) layoutEvents(m *ssa.Function, r *Report) ([][]string, []string) {
 	ctxS := "param:" + m.Params[1].Name() + ".CtxString"
 	runs, trunc := c.runEnc(m, encOpts{
+		// unexported helpers that work on the output buffer are part of the layout (code extracted from ToBytes)
+		inline: func(callee *ssa.Function) bool {
+			if callee.Object() == nil || callee.Object().Exported() {
+				return false
+			}
+			for _, p := range callee.Params {
+				if isBytesBufferPtr(p.Type()) {
+					return true
+				}
+			}
+			return false
+		},
 		branch: func(s *TSCtx, iff *ssa.If, taken bool) string {
 			p := c.prov(iff.Cond, s.Frame)
 			if b, ok := iff.Cond.(*ssa.BinOp); ok {
@@ -1500,7 +1548,11 @@ func checkC08(c *Ctx, r *Report) {
 }
 
 func (c *Ctx) checkTextDelegate(r *Report, jt, tt *types.Named, depthF, writtenF, jsonF, lastF *types.Var, toks []*ssa.NamedConst, mainEsc *ssa.Function) {
-	inl := func(f *ssa.Function) bool { return false }
+	// unexported methods of the text encoder are helpers extracted from its Append* methods
+	ownHelper := func(f *ssa.Function) bool {
+		return recvNamed(f) == tt && f.Object() != nil && !f.Object().Exported()
+	}
+	inl := ownHelper
 	for _, mname := range []string{"AppendKey", "AppendBool", "AppendInt64", "AppendUint64", "AppendFloat64", "AppendString", "AppendReflect"} {
 		m := c.method(tt, mname)
 		jm := c.method(jt, mname)
@@ -1622,7 +1674,7 @@ func (c *Ctx) checkTextDelegate(r *Report, jt, tt *types.Named, depthF, writtenF
 				continue
 			}
 			// inline the JSON encoder's methods so the state reset is visible in the cells
-			runs, _ := c.runEnc(m, encOpts{inline: func(f *ssa.Function) bool { return recvNamed(f) == jt }, cells: map[string]constant.Value{depthCell: constant.MakeInt64(d), lastCell: toks[len(toks)-1].Value.Value}}, r)
+			runs, _ := c.runEnc(m, encOpts{inline: func(f *ssa.Function) bool { return recvNamed(f) == jt || ownHelper(f) }, cells: map[string]constant.Value{depthCell: constant.MakeInt64(d), lastCell: toks[len(toks)-1].Value.Value}}, r)
 			for _, run := range runs {
 				nd, _ := constant.Int64Val(run.Cells[depthCell])
 				wantD := d + 1
